@@ -140,7 +140,11 @@ def _canon(t):
     return t
 
 
+EXPANSIONS = []  # filled by the last inline(): one entry per macro expansion
+
+
 def inline(program, max_depth=40):
+    EXPANSIONS.clear()
     macros, flat = {}, []
     collect(program, macros, flat)
     out = []
@@ -188,7 +192,10 @@ def inline(program, max_depth=40):
         uid = counter[0]
         for loc in locs:
             env[loc] = ident(f'{loc}__x{uid}')
+        first = len(out)
         expand(body, env, path, depth + 1)
+        # (macro name, ops emitted before the expansion, ops the expansion emitted)
+        EXPANSIONS.append((name, sum(1 for st in out[:first] if st[0] == 'op'), sum(1 for st in out[first:] if st[0] == 'op')))
 
     expand(flat, {}, (), 0)
     return out, instances
